@@ -81,6 +81,103 @@ def core_build(history):
     return K
 
 
+def check_button_handlers(report: Report) -> dict:
+    """Handlers that look at their own button, or raise: one click per rising edge of the sampled level all the same
+    (every 0/1 level sequence up to length 6, manual levels)."""
+    import Reduino.Sensors as S
+
+    n = 0
+    for length in range(1, 7):
+        for levels in itertools.product((0, 1), repeat=length):
+            for kind in ("polls_itself", "raises_once", "polls_and_counts"):
+                n += 1
+                clicks = []
+                box = {}
+
+                def handler():
+                    clicks.append(1)
+                    if kind == "polls_itself":
+                        box["b"].is_pressed()
+                    elif kind == "polls_and_counts":
+                        box["b"].is_pressed()
+                        box["b"].is_pressed()
+                    elif kind == "raises_once" and len(clicks) == 1:
+                        raise RuntimeError("handler failed")
+
+                try:
+                    b = S.Button(2, on_click=handler)
+                except TypeError:
+                    b = S.Button(pin=2, on_click=handler)
+                box["b"] = b
+                err = None
+                try:
+                    for lv in levels:
+                        b.set_pressed(bool(lv))
+                        try:
+                            b.is_pressed()
+                        except RuntimeError:
+                            pass
+                except RecursionError:
+                    err = "the handler polling its own button re-entered itself until RecursionError"
+                except Exception as exc:  # noqa: BLE001
+                    err = f"raised {type(exc).__name__}: {exc}"
+                rising = sum(1 for i, lv in enumerate(levels) if lv and (i == 0 or not levels[i - 1]))
+                if err is None and len(clicks) != rising:
+                    err = f"{len(clicks)} clicks for {rising} rising edges"
+                if err:
+                    report.violation(explore.history_key(ID, "Button-handler", [("levels", (kind,) + tuple(levels), {})]), f"Button with a handler that {kind.replace('_', ' ')}: levels {levels}: {err}",
+                                     {"subject": "Button-handler", "kind": kind, "levels": list(levels)})
+    report.evaluations += n
+    return {"histories": n}
+
+
+def core_edge_values(report: Report) -> dict:
+    """analog values beyond any integer (clamped like every other value), NaN (refused with ValueError, pin unchanged), and
+    pin names made of characters that only LOOK like digits (plain names, never an uncaught error)."""
+    import Reduino.Core as K
+
+    n = 0
+    for value, want in ((float("inf"), 255), (float("-inf"), 0), (1e308, 255), (-1e308, 0), (255.4, 255), (254.5, 254), (0.5, 0), (1.5, 2), (True, 1)):
+        importlib.reload(K)
+        n += 1
+        try:
+            K.analog_write(5, value)
+            got = K.analog_read(5)
+        except Exception as exc:  # noqa: BLE001
+            got = f"{type(exc).__name__}: {exc}"
+        if got != want:
+            report.violation(explore.history_key(ID, "Core-edge", [("analog_write", (repr(value),), {})]), f"Core: analog_write(5, {value!r}) then analog_read(5) gives {got!r}, the clamped value is {want}",
+                             {"subject": "Core-edge", "value": repr(value)})
+    importlib.reload(K)
+    K.analog_write(5, 77)
+    n += 1
+    try:
+        K.analog_write(5, float("nan"))
+        outcome = "accepted"
+    except ValueError:
+        outcome = "ValueError"
+    except Exception as exc:  # noqa: BLE001
+        outcome = type(exc).__name__
+    if outcome != "ValueError" or K.analog_read(5) != 77:
+        report.violation(explore.history_key(ID, "Core-edge", [("analog_write", ("nan",), {})]), f"Core: analog_write(5, nan) -> {outcome}, pin afterwards {K.analog_read(5)} (expected ValueError and the old value 77)",
+                         {"subject": "Core-edge", "value": "nan"})
+    for name in ("\u00b2", "\u2460", "7\u00b2", "", " 7", "7 ", "+7", "-7", "7.0", "0x7"):
+        importlib.reload(K)
+        n += 1
+        try:
+            K.digital_write(name, K.HIGH)
+            K.analog_write(name, 9)
+            K.pin_mode(name, K.INPUT_PULLUP)
+            got = (K.digital_read(name), K.analog_read(name), K.digital_read(7), K.analog_read(7))
+        except Exception as exc:  # noqa: BLE001
+            got = f"{type(exc).__name__}: {exc}"
+        if got != (1, 9, 0, 0):
+            report.violation(explore.history_key(ID, "Core-edge", [("pin", (repr(name),), {})]), f"Core: pin name {name!r} written and read back gives {got!r}; expected its own cell (1, 9) and pin 7 untouched (0, 0)",
+                             {"subject": "Core-edge", "pin": repr(name)})
+    report.evaluations += n
+    return {"cases": n}
+
+
 def core_alias_grid(report: Report, tier: str) -> dict:
     """Every pin number 0..69 in every decimal spelling (int, str, zero-padded str): a value written through one spelling is
     read back through every other spelling of the same pin, and through no spelling of the neighbouring pin."""
@@ -195,6 +292,23 @@ def check_map(report: Report, tier: str) -> dict:
         want = Fraction(case[3]) + (Fraction(case[0]) - Fraction(case[1])) / (Fraction(case[2]) - Fraction(case[1])) * (Fraction(case[4]) - Fraction(case[3]))
         if abs(Fraction(got) - want) > Fraction(1, 10 ** 9) * max(1, abs(want)):
             report.violation(explore.history_key(ID, "map", [("map", case, {})]), f"Utils.map{case} = {got!r}, exact {float(want)!r}", {"subject": "map", "args": list(case)})
+    # source ranges whose bounds differ as written but whose width is zero in floating point: refused like any empty
+    # range (a ZeroDivisionError is not a refusal); huge but distinct bounds still map
+    for case in ((1, 1e16, 10 ** 16 + 1, 0, 1), (1, 10 ** 16 + 1, 1e16, 0, 1), (0.5, 1e308, 1e308, 0, 1), (3, 2 ** 53, 2 ** 53 + 1.0, 0, 1), (5, 0.0, -0.0, 1, 2), (5, 7, 7.0, 1, 2), (5, True, 1, 1, 2)):
+        n += 1
+        try:
+            got, exc = U.map(*case), None
+        except Exception as e:  # noqa: BLE001
+            got, exc = None, e
+        if not isinstance(exc, ValueError):
+            report.violation(explore.history_key(ID, "map", [("map", tuple(map(repr, case)), {})]), f"Utils.map{case}: a zero-width source range must be refused with ValueError; got {got!r} / {type(exc).__name__ if exc else 'no error'}",
+                             {"subject": "map", "args": [repr(c) for c in case]})
+    for case in ((10 ** 16 + 2, 10 ** 16, 10 ** 16 + 4, 0, 100), (3, 1, 5, 10 ** 20, 10 ** 20 + 8)):
+        n += 1
+        got = U.map(*case)
+        want = Fraction(case[3]) + Fraction(case[0] - case[1], case[2] - case[1]) * (case[4] - case[3])
+        if abs(Fraction(got) - want) > Fraction(1, 10 ** 9) * max(1, abs(want)):
+            report.violation(explore.history_key(ID, "map", [("map", case, {})]), f"Utils.map{case} = {got!r}, exact {float(want)!r}", {"subject": "map", "args": [repr(c) for c in case]})
     report.evaluations += n
     report.add_sample({"subject": "map", "args": [3, -4, 4, -2, 2]})
     return {"tuples": n}
@@ -468,6 +582,8 @@ def main(tier: str, seed: int, only=None) -> int:
     stats = {}
     stats["Core"] = core_bfs(report, tier)
     stats["Core-alias"] = core_alias_grid(report, tier)
+    stats["Core-edge"] = core_edge_values(report)
+    stats["Button-handlers"] = check_button_handlers(report)
     stats["map"] = check_map(report, tier)
     stats["sleep"] = check_sleep(report)
     stats["Button"] = check_button(report, tier)
